@@ -53,6 +53,9 @@ type StreamMon struct {
 	FirstT    time.Time
 	CompleteT time.Time
 	Bad       []string // violation key + "\x00" + description
+	Evs       []MonEv  // every callback with its time interval (for the single-live-entry check)
+	evT0      int64
+	evKind    byte
 	cur       [2]struct {
 		gen, next int
 		set       bool
@@ -65,6 +68,14 @@ func (m *StreamMon) bad(key, desc string) {
 	}
 }
 
+// MonEv is one callback of a stream with the interval during which it ran (ns on the process's monotonic clock).
+type MonEv struct {
+	Kind   byte
+	T0, T1 int64
+}
+
+var monBase = time.Now()
+
 // Enter / Leave bracket every callback.
 func (m *StreamMon) Enter() bool {
 	if !atomic.CompareAndSwapInt32(&m.busy, 0, 1) {
@@ -72,6 +83,7 @@ func (m *StreamMon) Enter() bool {
 		return false
 	}
 	m.Callbacks++
+	m.evT0, m.evKind = int64(time.Since(monBase)), 'd'
 	if m.FirstT.IsZero() {
 		m.FirstT = time.Now()
 	}
@@ -81,7 +93,12 @@ func (m *StreamMon) Enter() bool {
 	return true
 }
 
-func (m *StreamMon) Leave() { atomic.StoreInt32(&m.busy, 0) }
+func (m *StreamMon) Leave() {
+	if len(m.Evs) < 8192 {
+		m.Evs = append(m.Evs, MonEv{m.evKind, m.evT0, int64(time.Since(monBase))})
+	}
+	atomic.StoreInt32(&m.busy, 0)
+}
 
 // Data checks one hand-over of bytes for direction dir (0/1) of this stream.
 func (m *StreamMon) Data(dir int, b []byte, skip int, start, end bool) {
@@ -132,6 +149,7 @@ func (m *StreamMon) Data(dir int, b []byte, skip int, start, end bool) {
 
 // Complete records the completion callback.
 func (m *StreamMon) Complete() {
+	m.evKind = 'c'
 	m.Completed++
 	m.CompleteT = time.Now()
 	if m.Completed > 1 {
